@@ -46,8 +46,9 @@ pub open spec fn critical_experimental(p: Subpacket) -> bool {
 /// RFC 9580 5.2.3.7 also for the private/experimental range: "If a subpacket is encountered that is marked
 /// critical but is unknown to the evaluating implementation, the evaluator SHOULD consider the signature to
 /// be in error."  rPGP knows no subpacket in 100..110, it keeps them as raw bytes.
-/// FINDING: hash_signature_data only rejects `Other`, so a v4/v6 signature whose hashed area holds e.g. the
-/// subpacket 02 E5 00 (length 2, type 0x80|101, one body octet) hashes and verifies.
+/// (Former finding, fixed in /repo 1c4de0b: hash_signature_data used to reject `Other` only, so a v4/v6 signature
+/// whose hashed area holds e.g. the subpacket 02 E5 00 (length 2, type 0x80|101, one body octet) hashed and verified;
+/// it now rejects `Other` and `Experimental` alike and unit U30 proves this clause.)
 pub open spec fn critical_experimental_rejected(c: SignatureConfig, ok: bool) -> bool {
     ok && (ver_of(c.version_specific) is V4 || ver_of(c.version_specific) is V6) ==>
         forall|i: int| 0 <= i < c.hashed_subpackets@.len() ==> !critical_experimental(#[trigger] c.hashed_subpackets@[i])
@@ -62,9 +63,11 @@ pub open spec fn issuer_fp_misaligned(p: Subpacket, ver: SignatureVersion) -> bo
         _ => false,
     }
 }
-/// why hash_signature_data may refuse a hashed subpacket: the two RFC rules, or it cannot be serialised
+/// why hash_signature_data may refuse a hashed subpacket: the two RFC rules (critical and unknown to rPGP, i.e. an
+/// unassigned type or, since /repo 1c4de0b, one of the private/experimental range; issuer fingerprint of another
+/// version), or it cannot be serialised
 pub open spec fn hs_rejects(p: Subpacket, ver: SignatureVersion) -> bool {
-    critical_unknown(p) || issuer_fp_misaligned(p, ver) || !subpacket_ser_ok(p)
+    critical_unknown(p) || critical_experimental(p) || issuer_fp_misaligned(p, ver) || !subpacket_ser_ok(p)
 }
 /// the hashed fields of `c` for a v4/v6 signature
 pub open spec fn cfg_fields(c: SignatureConfig) -> Seq<u8> {
